@@ -53,6 +53,7 @@ func (w *World) Exec(st *Step) (viol *Violation) {
 	case "reget":
 		if c := w.Model.Conts[st.C]; c != nil {
 			w.dropHandles(c)
+			w.viaIter[c.CID] = st.Sub == "iter"
 		}
 		return nil
 	case "dispose":
